@@ -18,6 +18,7 @@ PROGRAMS = {
     'cvf-listener': {'src': 'examples/cvf/cvf-listener.c', 'extra': [], 'defs': []},
     'aaf-listener': {'src': 'examples/aaf/aaf-listener.c', 'extra': [], 'defs': []},
     'crf-listener': {'src': 'examples/crf/crf-listener.c', 'extra': [], 'defs': []},
+    'toy-listener': {'src': os.path.join(core.ROOT, 'engine', 'ex', 'toy_listener.c'), 'extra': [], 'defs': []},
 }
 
 
@@ -51,6 +52,18 @@ def build_program(bdir, name, init='pattern'):
     exe = os.path.join(d, 'harness')
     core.link(exe, objs, cc='clang', flags=['-fsanitize=address,undefined', '-lm'])
     return exe
+
+
+def selftest(bdir):
+    """planted-bug self-test of the E4 engine: a toy listener with a trusted length byte must be caught"""
+    exe = build_program(bdir, 'toy-listener')
+    r = run_batch(exe, [('good', '', '-', ['D04aabbccdd']), ('bad', '', '-', ['D0f' + 'ee' * 20]), ('both', '', '-', ['D0f' + 'ee' * 20, 'D04aabbccdd'])])
+    if classify(r['good'][0], r['good'][2]) is not None or 'OUT aa' not in r['good'][1]:
+        core.die_infra('E4 self-test: the well-formed toy datagram was not processed: %s' % (r['good'],))
+    c = classify(r['bad'][0], r['bad'][2])
+    if not c or 'stack-buffer-overflow' not in c:
+        core.die_infra('E4 self-test: the planted overflow of the toy listener was not detected: %s' % (r['bad'],))
+    return c
 
 
 def run_batch(exe, scripts, limit=2.0):
